@@ -164,9 +164,6 @@ class ModelTable:
             self.add(('acc_branch1', m), f"acc_branch1 S {L}")
             self.add(('acc_map_unwrap', m), f"acc_map_unwrap S {L}")
             self.add(('acc_map', m), f"acc_map S {L}")
-            self.add(('acc_first', m), f"acc_first S {L}")
-            for e in ('ValueError', 'TypeError', 'AssertionError', 'AttributeError', 'IndexError'):
-                self.add(('acc_single', e, m), f"acc_single S {e} {L}")
             for k in range(maxlen + 1):
                 self.add(('interp', m, k), f"pose_interp {P} {L} {coq_list(range(100, 100 + k))}")
         out = ctx.coq_eval(COQ_HEADER, self.terms, name='model')
@@ -676,10 +673,9 @@ def methods_of(cn):
     log/exp, determinant, norm, conjugate, conversions, per-value components) ; 'census': other single-value methods,
     reported in the evidence only."""
     ms = []
-    single = lambda e: ('acc_single', e)  # noqa: E731
     if cn in POSES:
         ms += [M_('inv()', 'inv', lambda x: x.inv()),
-               M_('R', 'R', lambda x: x.R, 'acc_branch1' if cn in ('SO3', 'SE3') else single('TypeError')),
+               M_('R', 'R', lambda x: x.R),
                M_('det()', 'det', lambda x: x.det()), M_('log()', 'log', lambda x: x.log(), 'acc_map_unwrap'),
                M_('log(twist=True)', 'log', lambda x: x.log(twist=True), 'acc_map_unwrap'),
                M_('norm()', 'norm', lambda x: x.norm(), 'acc_map')]
@@ -694,8 +690,8 @@ def methods_of(cn):
             ms += [M_(f"rpy(order='{order}')", 'rpy', (lambda o: lambda x: x.rpy(order=o))(order))]
         ms += [M_("rpy(unit='deg')", 'rpy', lambda x: x.rpy(unit='deg')), M_('eul()', 'eul', lambda x: x.eul()),
                M_("eul(unit='deg')", 'eul', lambda x: x.eul(unit='deg')),
-               M_('angvec()', 'angvec', lambda x: x.angvec(), single('ValueError')),
-               M_("angvec(unit='deg')", 'angvec', lambda x: x.angvec(unit='deg'), single('ValueError'))]
+               M_('angvec()', 'angvec', lambda x: x.angvec()),
+               M_("angvec(unit='deg')", 'angvec', lambda x: x.angvec(unit='deg'))]
     if cn in ('SO3', 'SE3'):
         ms += [M_('eul(flip=True)', 'eul', lambda x: x.eul(flip=True))]
     if cn == 'SE3':
@@ -707,26 +703,26 @@ def methods_of(cn):
         ms += [M_('s', 's', lambda x: x.s), M_('v', 'v', lambda x: x.v), M_('vec', 'vec', lambda x: x.vec),
                M_('conj()', 'conj', lambda x: x.conj(), 'acc_map'), M_('norm()', 'norm', lambda x: x.norm()),
                M_('unit()', 'unit', lambda x: x.unit(), 'acc_map'), M_('-x', '__neg__', lambda x: -x, 'acc_map'),
-               M_('log()', 'log', lambda x: x.log(), single('TypeError')), M_('exp()', 'exp', lambda x: x.exp(), None, 'census'),
+               M_('log()', 'log', lambda x: x.log()), M_('exp()', 'exp', lambda x: x.exp(), None, 'census'),
                M_('matrix', 'matrix', lambda x: x.matrix)]        # branches on len(self) == 1 since fix 66f9b8b
     if cn == 'UnitQuaternion':
-        ms += [M_('inv()', 'inv', lambda x: x.inv(), 'acc_map'), M_('R', 'R', lambda x: x.R), M_('SO3()', 'SO3', lambda x: x.SO3(), None),
-               M_('SE3()', 'SE3', lambda x: x.SE3(), single('ValueError')), M_('vec3', 'vec3', lambda x: x.vec3, None, 'census')]
+        ms += [M_('inv()', 'inv', lambda x: x.inv(), 'acc_map'), M_('R', 'R', lambda x: x.R), M_('SO3()', 'SO3', lambda x: x.SO3()),
+               M_('SE3()', 'SE3', lambda x: x.SE3()), M_('vec3', 'vec3', lambda x: x.vec3, None, 'census')]
     if cn in ('Twist3', 'Twist2'):
-        ms += [M_('inv()', 'inv', lambda x: x.inv(), 'acc_map'), M_('S', 'S', lambda x: x.S), M_('v', 'v', lambda x: x.v, 'acc_first'),
-               M_('w', 'w', lambda x: x.w, 'acc_first'),
+        ms += [M_('inv()', 'inv', lambda x: x.inv(), 'acc_map'), M_('S', 'S', lambda x: x.S), M_('v', 'v', lambda x: x.v),
+               M_('w', 'w', lambda x: x.w),
                M_('isprismatic', 'isprismatic', lambda x: x.isprismatic),          # the M > 1 branch iterates twist objects since fix 98c866c
                M_('isrevolute', 'isrevolute', lambda x: x.isrevolute), M_('isunit', 'isunit', lambda x: x.isunit),
-               M_('exp()', 'exp', lambda x: x.exp(), single('ValueError')),
+               M_('exp()', 'exp', lambda x: x.exp()),
                M_('unit', 'unit', lambda x: x.unit)]                 # branches on len(self) == 1 since fix 4908bfb
     if cn == 'Twist3':
-        ms += [M_('se3()', 'se3', lambda x: x.se3()), M_('SE3()', 'SE3', lambda x: x.SE3(), single('ValueError')),
-               M_('theta()', 'theta', lambda x: x.theta(), 'acc_first'), M_('pitch()', 'pitch', lambda x: x.pitch(), 'acc_first'),
-               M_('pole()', 'pole', lambda x: x.pole(), 'acc_first'),
+        ms += [M_('se3()', 'se3', lambda x: x.se3()), M_('SE3()', 'SE3', lambda x: x.SE3()),
+               M_('theta()', 'theta', lambda x: x.theta()), M_('pitch()', 'pitch', lambda x: x.pitch()),
+               M_('pole()', 'pole', lambda x: x.pole()),
                M_('line()', 'line', lambda x: x.line(), 'acc_map'), M_('ad()', 'ad', lambda x: x.ad(), None, 'census'),
                M_('Ad()', 'Ad', lambda x: x.Ad(), None, 'census')]
     if cn == 'Twist2':
-        ms += [M_('se2()', 'se2', lambda x: x.se2()), M_('SE2()', 'SE2', lambda x: x.SE2(), single('ValueError'))]
+        ms += [M_('se2()', 'se2', lambda x: x.se2()), M_('SE2()', 'SE2', lambda x: x.SE2())]
     return ms
 
 
@@ -780,7 +776,18 @@ def parse_acc(s, M):
 # sites whose sequence defect was repaired: their cells stay in the grid under a key no stale known entry can match
 REPAIRED_SITES = {'SMTwist.unit': 'SMTwist.unit[seq-branch-4908bfb]', 'Twist2.unit': 'Twist2.unit[seq-branch-4908bfb]',
                   'SMTwist.isprismatic': 'SMTwist.isprismatic[seq-branch-98c866c]', 'SMTwist.isrevolute': 'SMTwist.isrevolute[seq-branch-98c866c]',
-                  'SMPose.mul-points': 'SMPose.mul-points[columns-86fcbcb]'}
+                  'SMPose.mul-points': 'SMPose.mul-points[columns-86fcbcb]',
+                  'UnitQuaternion.mul-points': 'UnitQuaternion.mul-points[columns-e6aec7a]',
+                  'SO2.R': 'SO2.R[seq-branch-42a8032]', 'SO3.angvec': 'SO3.angvec[seq-branch-3803e60]',
+                  'UnitQuaternion.angvec': 'UnitQuaternion.angvec[seq-branch-3803e60]', 'Quaternion.log': 'Quaternion.log[seq-branch-5d38d76]',
+                  'UnitQuaternion.SO3': 'UnitQuaternion.SO3[seq-branch-7b9d842]', 'UnitQuaternion.SE3': 'UnitQuaternion.SE3[seq-branch-7b9d842]',
+                  'Twist3.v': 'Twist3.v[seq-branch-77cb365]', 'Twist3.w': 'Twist3.w[seq-branch-77cb365]',
+                  'Twist2.v': 'Twist2.v[seq-branch-77cb365]', 'Twist2.w': 'Twist2.w[seq-branch-77cb365]',
+                  'Twist3.theta': 'Twist3.theta[seq-branch-a77df5a]', 'Twist3.pitch': 'Twist3.pitch[seq-branch-a77df5a]',
+                  'Twist3.pole': 'Twist3.pole[seq-branch-a77df5a]',
+                  'Twist3.exp': 'Twist3.exp[seq-branch-3804c67]', 'Twist3.SE3': 'Twist3.SE3[seq-branch-3804c67]',
+                  'Twist2.exp': 'Twist2.exp[seq-branch-3804c67]', 'Twist2.SE2': 'Twist2.SE2[seq-branch-3804c67]',
+                  'Twist3.exp(theta-vector)': 'Twist3.exp(theta-vector)[3804c67]', 'Twist2.exp(theta-vector)': 'Twist2.exp(theta-vector)[3804c67]'}
 
 
 def method_grid(ctx, MT, census_out=None):
@@ -844,23 +851,10 @@ def method_grid_pool(ctx, MT, census_out=None):
                 # ---- the hand model of the accessor shape
                 if shape is None:
                     continue
-                if isinstance(shape, tuple):
-                    # the exception kind of a single-value-only accessor may depend on the length (a list of 6 twists passes the
-                    # kernel's length test and fails later): the shape lists the admissible kinds
-                    kinds = shape[1] if isinstance(shape[1], tuple) else (shape[1],)
-                    kind = obs[1] if obs[0] == 'err' and obs[1] in kinds else kinds[0]
-                    key = (shape[0], kind, M)
-                else:
-                    key = (shape, M)
+                key = (shape, M)
                 ctx.corr['cases'] += 1
                 mod = parse_acc(MT[key], M)
-                if mod != obs and obs == ('ok', list(range(M))) and (shape == 'acc_first' or isinstance(shape, tuple)):
-                    # the hand model records a defective shape (first element only / single value only) and the implementation now
-                    # satisfies the property for this method: the defect has been repaired, the model shape is out of date
-                    note = f"{what}: behaves element-wise for {M} values; the defective accessor shape {shape} recorded in the hand model no longer applies"
-                    if note not in ctx.notes:
-                        ctx.notes.append(note)
-                elif mod != obs:
+                if mod != obs:
                     ctx.corr['disagreements'] += 1
                     ctx.fail(f'corr:accessor:{site}', f"{what}: the accessor shape {shape} of the hand model predicts {mod} for {M} values, "
                              f"the implementation gives {obs}", dict(replay, model=str(mod), observed=str(obs)))
@@ -910,9 +904,10 @@ def interp_grid(ctx, MT):
                     else:
                         obs = ('err', exn_name(res[1]))
                     cell = '1x1' if (m, k) == (1, 1) else '1xK' if m == 1 else 'Mx1' if k == 1 else 'MxK'
+                    ckey = cell + '[vector-s-51bc88a]' if site == 'UnitQuaternion.interp' and cell in ('1x1', '1xK') else cell
                     if cell != 'MxK' and obs[0] != 'ok':
                         # the property: one value x vector of s -> K results; M values x one s -> M results
-                        ctx.fail(f'oracle:interp:{site}:{cell}:' + (f'err:{obs[1]}' if obs[0] == 'err' else 'wrong-result'), f"{cn}.interp on an object holding {m} values with s holding {k} "
+                        ctx.fail(f'oracle:interp:{site}:{ckey}:' + (f'err:{obs[1]}' if obs[0] == 'err' else 'wrong-result'), f"{cn}.interp on an object holding {m} values with s holding {k} "
                                  f"value(s) ({form}) gives {obs} instead of {blen(m, k)} results equal to the single-valued interpolations",
                                  dict(replay, observed=str(obs)))
                     if site == 'SMPose.interp':
